@@ -543,3 +543,31 @@ def r03_17_subtraction_is_not_addition_of_the_negation(ctx: Ctx) -> RuleResult:
     if n_cls == 0:
         raise AnalysisError("Duration range is symmetric: R03.17 has nothing to decide (re-read the class)")
     return rr
+
+
+@rule("C03")
+def r03_18_float_views_divide_the_exact_total(ctx: Ctx) -> RuleResult:
+    """The float-valued unit conversions (total_seconds, total_days...) of a type stored as floor days + nanosecond of day: for a
+    negative value the two parts have opposite signs (-1 ns is day -1 + 86_399_999_999_999 ns), so adding the scaled parts in
+    floating point cancels catastrophically - `from_nanoseconds(-1).total_seconds` is -1.004e-09.  The exact route is one
+    correctly rounded division of the exact integer total (Python's int / int).  In every float-returning accessor of the
+    elapsed-time types no float quotient is an operand of an addition or subtraction."""
+    rr = RuleResult("R03.18", "float unit conversions are one division of the exact integer total: no float quotient is added to a scaled part (catastrophic cancellation for negative values)", min_instances=6)
+    M = ctx.M
+    for cname in ("Duration", "Instant", "Offset"):
+        c = M.cls(cname, required=True)
+        for f in sorted(c.all_defs, key=lambda g: g.qual):
+            if isinstance(f.node, ast.Lambda) or f.node.returns is None or unparse(f.node.returns).strip("'\"") != "float":
+                continue
+            rr.inst()
+            bad = None
+            for n in own_nodes(f.node):
+                if isinstance(n, ast.BinOp) and isinstance(n.op, (ast.Add, ast.Sub)):
+                    for side in (n.left, n.right):
+                        if any(isinstance(x, ast.BinOp) and isinstance(x.op, ast.Div) for x in ast.walk(side)):
+                            bad = n
+            if bad is None:
+                rr.ok({"accessor": f.qual})
+            else:
+                rr.fail(f.qual, f"`{unparse(bad)[:110]}` adds a float quotient to the scaled day part: for a value just below zero the parts are -1 day and almost +1 day, and the sum keeps only the rounding error of the quotient (-1 ns gives -1.004e-09 s); divide the exact integer total once", ctx.loc(f, bad))
+    return rr
